@@ -32,7 +32,7 @@ TERM = {
     "quick":    {"N3": "2000", "N4": "300", "BMin": "6000"},
     "thorough": {"N3": "0", "N4": "20000", "BMin": "6000"},
 }
-N_OPS = 110    # entry points bound in Shapes.tla (vacuity: every one must occur, accepted and rejected)
+N_OPS = 130    # entry points bound in Shapes.tla (vacuity: every one must occur, accepted and rejected)
 
 
 # ----------------------------------------------------------------------------- part A
@@ -150,7 +150,7 @@ def part_b(ctx, binary):
             classes[c["class"]] = classes.get(c["class"], 0) + 1
     need = {"int1x1", "int2x2", "int3x3", "int4x4", "zero", "identity", "nilpotent", "jordan", "rank1", "repeated", "complex",
             "companion", "nonfinite", "nan", "posinf", "error", "constraints_never", "constraints_only_start",
-            "zero_gradient"}
+            "zero_gradient", "epsilon_unattainable", "ls_le", "ls_lt", "ls_never", "ls_only_zero"}
     if not need <= set(classes):
         raise vlib.Infra("input classes missing: %s" % sorted(need - set(classes)))
     ctx.log("Termination: %d cases, classes %s" % (len(lines), json.dumps(classes, sort_keys=True)))
